@@ -52,6 +52,12 @@ FOCUS = {
                          "vs Python floats, descending or duplicated axis values, unequal lengths where they are allowed, read-only arrays, views); (c) a change on an exception or early-return path that leaves "
                          "an object half updated and only shows in what the NEXT call does; (d) a change whose effect depends on the ORDER of otherwise independent calls, files, azimuths or windows. "
                          "At least one of your two breaking changes must be of kind (a) or (c).\n",
+    "boundaries": "\nFOCUS OF THIS ROUND: semantic near-misses that only a boundary shows. Prefer changes of the kind: strict versus non-strict comparison at an exact tie; inclusive versus "
+                  "exclusive end of a range or slice; first versus last occurrence among equal values; n versus n-1 (or n+1) in a count, a denominator or a length; rounding direction "
+                  "(floor / round / truncate; half-to-even versus half-up) at exact halves; a sign or direction convention (clockwise versus counter-clockwise, +n versus -n); rows versus "
+                  "columns for square inputs; degrees wrapped at 360 versus at 180; natural versus base-10 logarithm where both give the same answer for the values tests use; a default that "
+                  "coincides with the tested value. Each change must be indistinguishable from the original on generic (random, non-tied, non-integer, non-square) inputs and wrong on the "
+                  "boundary input -- which must be a legal input the property quantifies over. Say in notes.md exactly which boundary it is.\n",
 }
 
 
